@@ -2,7 +2,7 @@
    Statements only; proofs are in rset/RSetThm.v (the generator rruleset._iter) and
    rset/RSetHistThm.v (histories of mutators, iterators and queries on one object). *)
 From Coq Require Import ZArith List Bool.
-From V Require Import rset.RSetModel rset.RSetSpec rset.RSetHist rset.RSetThm rset.RSetHistThm rset.RSetLit rset.RSetLitThm rset.RSetHeapq rset.RSetHeapqThm.
+From V Require Import rset.RSetModel rset.RSetSpec rset.RSetHist rset.RSetThm rset.RSetHistThm rset.RSetLit rset.RSetLitThm rset.RSetHeapq rset.RSetHeapqThm rset.RSetHist2 rset.RSetHistThm2.
 Import ListNotations.
 Open Scope Z_scope.
 
@@ -150,3 +150,15 @@ Theorem C10_rset_first_n : forall H is_heap, heap_contract H is_heap ->
   exists p', rset_iter H (map (cut b) rr) (cut b rd) (map (cut b) exr) (cut b exd) = Some (firstn (S k) out, p').
 Proof. exact rset_first_n. Qed.
 Print Assumptions C10_rset_first_n.
+
+(* sharper guard: an iterator obtained before a later mutator MAY be advanced after it, as long as
+   that next() leaves the attributes shared by all iterators (_cache_complete, _cache_gen is None,
+   _len) unchanged in the run of the model (mild_history; it also asks every next() to name an
+   existing iterator).  What such an iterator itself returns is not specified (OUnspec), every
+   other observation is.  F-C10-stale is therefore precisely: a stale iterator driven to the end
+   of its generator, which writes those attributes of the invalidated state. *)
+Theorem C10_rset_history_mild : forall H is_heap, heap_contract H is_heap ->
+  forall cached ops, Forall op_ok ops -> mild_history H cached ops = true ->
+  Forall2 (fun a b => b = OUnspec \/ a = b) (run_history H cached ops) (spec_history ops).
+Proof. exact rset_history_mild. Qed.
+Print Assumptions C10_rset_history_mild.
